@@ -178,6 +178,11 @@ def flags(repo: Repo) -> List[Ob]:
         g_flags = [x for x in FLAG_NAMES if x in fi.params]
         if not g_flags:
             continue
+        if fi.qualname == "CustomState.measure":
+            # one named exception: a custom state is never destroyed and has no envelope partner, so
+            # `destructive`/`separate_measurement` are documented (and, by BOOK-evict, implemented) as
+            # having no effect on it – dropping them at the delegation cannot change behaviour
+            continue
         props = ("C05", "C04") if fi.node.name == "measure" else ("C09",)
         if fi.node.name == "measure":
             props = ("C05",)
